@@ -175,3 +175,49 @@ Theorem source_session_failed_not_remembered : forall h rs src always ts s1 ex e
     (let '(s2, ex2, r2) := sbuild memo_policy_of_source always2 ts2 (mkS (s_world s1) []) in
      (s_world s2, ex2, r2)).
 Proof. rewrite gen_memo_policy_per_build. exact session_failed_not_remembered. Qed.
+
+(** ** Which stat call feeds the digest and which the file-set entries
+
+    [call_edges]: the call graph of package caco3 as the translator reads it
+    (caller, its base name, callee's base name; a method call is an edge to
+    every function of that name; [os.Stat], [os.Lstat], [os.Readlink] are the
+    leaves).  From [buildNodeDigest] - what the action and source digests are
+    made of - and from [fileSet.build] - what the .fileset entries are made of -
+    the same stat calls are reached, [os.Lstat] (with [os.Readlink] for the
+    target text) and never [os.Stat]: the output records of a link what the
+    digest covers, the link's own lstat (Caco/BuildLinks.v). *)
+Definition edge_callee (e : string * string * string) : string := snd e.
+Definition edge_caller (e : string * string * string) : string := fst (fst e).
+Definition edge_base (e : string * string * string) : string := snd (fst e).
+
+Definition smem (x : string) (l : list string) : bool := existsb (String.eqb x) l.
+
+Definition add_new (xs acc : list string) : list string :=
+  fold_left (fun a x => if smem x a then a else (a ++ [x])%list) xs acc.
+
+Definition callees_of_bases (bases : list string) : list string :=
+  map edge_callee (filter (fun e => smem (edge_base e) bases) call_edges).
+
+Fixpoint close_calls (fuel : nat) (set : list string) : list string :=
+  match fuel with
+  | O => set
+  | S f => close_calls f (add_new (callees_of_bases set) set)
+  end.
+
+(** everything reachable from the function with the full name [start] *)
+Definition reach_from (start : string) : list string :=
+  close_calls 16 (add_new (map edge_callee (filter (fun e => String.eqb (edge_caller e) start) call_edges)) []).
+
+Definition is_os_stat (s : string) : bool :=
+  String.eqb s "os.Stat" || String.eqb s "os.Lstat" || String.eqb s "os.Readlink".
+
+Definition stat_calls_from (start : string) : list string := sort_dedup (filter is_os_stat (reach_from start)).
+
+Definition stat_kind_consistentb : bool :=
+  list_eqb String.eqb (stat_calls_from "buildNodeDigest") ["os.Lstat"; "os.Readlink"] &&
+  list_eqb String.eqb (stat_calls_from "fileSet.build") ["os.Lstat"; "os.Readlink"] &&
+  list_eqb String.eqb (stat_calls_from "fileSet.fileNodes") ["os.Lstat"; "os.Readlink"] &&
+  list_eqb String.eqb (stat_calls_from "checkSameBuilt") ["os.Lstat"; "os.Readlink"].
+
+Lemma gen_stat_kind_consistent : stat_kind_consistentb = true.
+Proof. vm_compute. reflexivity. Qed.
